@@ -218,6 +218,12 @@ fn borrowing_map<const N: usize>(sys: &MapSys<Kx, Vx, N>, path: &[u32], cx: &mut
         cx.check(pm, d.len() == 0, || "IterMut::default() is not empty".to_string());
         let d: micromap::ValuesMut<'_, Kx, Vx> = Default::default();
         cx.check(pm, d.len() == 0, || "ValuesMut::default() is not empty".to_string());
+        let mut d: micromap::IntoIter<Kx, Vx, N> = Default::default();
+        cx.check(C10, d.len() == 0 && d.next().is_none(), || "IntoIter::default() is not empty".to_string());
+        let mut d: micromap::IntoKeys<Kx, Vx, N> = Default::default();
+        cx.check(C10, d.len() == 0 && d.next().is_none(), || "IntoKeys::default() is not empty".to_string());
+        let mut d: micromap::IntoValues<Kx, Vx, N> = Default::default();
+        cx.check(C10, d.len() == 0 && d.next().is_none(), || "IntoValues::default() is not empty".to_string());
     }
     // writes through iter_mut: a distinct value per entry (by visiting position), then lookups
     for via_values in [false, true] {
